@@ -167,3 +167,56 @@ def presets(chk, prefix="C12"):
             chk.prove(f"{prefix}.presets.{name}", s.pc, z3.And(z3.Implies(n.t >= ma, z3.Not(should_t)), z3.Implies(should_t, z3.And(delay >= 1, delay <= maxd))),
                       desc=f"RetryPresets.{name}: at most {ma - 1} retries, delays within [1, {maxd}] seconds")
     return eng
+
+
+def small_factories(chk, prefix):
+    """The small value factories the strategies and their callers go through: Duration.from_* (whole seconds, truncated toward zero, never negative
+    accepted), WaitForConditionDecision.continue_waiting / stop_polling, WaitDecision.delay_seconds, WaitStrategyConfig.timeout_seconds"""
+    eng = Engine()
+    P = eng.program
+    dur = P.cls("config.Duration")
+    for m, factor in (("from_seconds", 1), ("from_minutes", 60), ("from_hours", 3600), ("from_days", 86400)):
+        if dur.find_method(m) is None:
+            continue
+        chk.function(f"config.Duration.{m}")
+        st = St()
+        v = fresh("int", "amount")
+        for k, r, s in eng.run(dur.find_method(m), [ClassRef(dur), v], st=st):
+            chk.paths += 1
+            if k == "val":
+                goal = z3.And(v.t >= 0, zint(s.get(r)["seconds"]) == v.t * factor) if isinstance(r, Ref) else z3.BoolVal(False)
+            else:
+                goal = v.t < 0          # Duration rejects a negative total
+            chk.prove(f"{prefix}.duration.{m}", s.pc, goal, desc=f"Duration.{m}(n) for an integer n >= 0 is n * {factor} seconds; a negative amount is rejected (ValidationError)")
+    dec = P.cls("waits.WaitForConditionDecision")
+    st = St()
+    d0 = st.alloc(dur, {"seconds": fresh("int", "delay")})
+    chk.function("waits.WaitForConditionDecision.continue_waiting")
+    for k, r, s in eng.run(dec.find_method("continue_waiting"), [ClassRef(dec), d0], st=st):
+        ok = k == "val" and isinstance(r, Ref) and s.get(r)["should_continue"] is True and s.get(r)["delay"] == d0
+        chk.prove(f"{prefix}.decision.continue_waiting", s.pc, z3.BoolVal(bool(ok)), desc="continue_waiting(delay): should_continue is True and the delay is the caller's Duration")
+    chk.function("waits.WaitForConditionDecision.stop_polling")
+    for k, r, s in eng.run(dec.find_method("stop_polling"), [ClassRef(dec)], st=St()):
+        ok = k == "val" and isinstance(r, Ref) and s.get(r)["should_continue"] is False
+        chk.prove(f"{prefix}.decision.stop_polling", s.pc, z3.BoolVal(bool(ok)), desc="stop_polling(): should_continue is False")
+    for cname in ("WaitDecision", "WaitForConditionDecision"):
+        c = P.cls("waits." + cname)
+        st = St()
+        secs = fresh("int", "delay")
+        first = "should_wait" if cname == "WaitDecision" else "should_continue"
+        obj = st.alloc(c, {first: fresh("bool", first), "delay": st.alloc(dur, {"seconds": secs})})
+        chk.function(f"waits.{cname}.delay_seconds")
+        for k, r, s in eng.getattr_(obj, "delay_seconds", st):
+            chk.prove(f"{prefix}.decision.delay_seconds", s.pc, z3.And(z3.BoolVal(k == "val"), zint(r) == secs.t) if k == "val" else z3.BoolVal(False), desc=f"{cname}.delay_seconds is the decision's delay in seconds")
+    wsc = P.cls("waits.WaitStrategyConfig")
+    if wsc.find_method("timeout_seconds") is not None:
+        chk.function("waits.WaitStrategyConfig.timeout_seconds")
+        st = St()
+        secs = fresh("int", "timeout")
+        none = z3.Bool("timeout.is_none")
+        cfg = st.alloc(wsc, {"timeout": mk_opt(none, st.alloc(dur, {"seconds": secs}))})
+        for k, r, s in eng.getattr_(cfg, "timeout_seconds", st):
+            goal = z3.BoolVal(False)
+            if k == "val":
+                goal = z3.And(is_none(r) == none, z3.Implies(z3.Not(none), zint(strip_opt(r)) == secs.t)) if r is not None else none
+            chk.prove(f"{prefix}.config.timeout_seconds", s.pc, goal, desc="WaitStrategyConfig.timeout_seconds is None without a timeout, else the timeout in seconds")
